@@ -161,7 +161,11 @@ func (m *Message) Root() (Ptr, error) {
 	if err != nil {
 		return Ptr{}, annotate(err).errorf("read root")
 	}
-	p, err := s.root().At(0)
+	root := s.root()
+	if !root.IsValid() {
+		return Ptr{}, newError("read root: first segment is too small to hold the root pointer")
+	}
+	p, err := root.At(0)
 	if err != nil {
 		return Ptr{}, annotate(err).errorf("read root")
 	}
